@@ -1,0 +1,5 @@
+// Package verifhook holds optional instrumentation points used by external
+// verification harnesses. With the default build every function in this package
+// is an empty stub; the build tag "verif" swaps in dispatchers that forward to
+// function variables a harness may install.
+package verifhook
